@@ -390,9 +390,12 @@ func scanCtorSib(c *core.Ctx) []ob {
 	byType := map[*types.TypeName][]*ctorInfo{}
 	ctorOf := map[*types.Func]*ctorInfo{}
 	c.FuncDecls(func(pk *packages.Package, file *ast.File, fd *ast.FuncDecl) {
-		if fd.Recv != nil || !(strings.HasPrefix(fd.Name.Name, "New") || strings.HasPrefix(fd.Name.Name, "new")) || fd.Body == nil || fileIsTestSupport(c.Program, fd.Pos()) || inExamples(pk) {
+		if fd.Body == nil || fileIsTestSupport(c.Program, fd.Pos()) || inExamples(pk) {
 			return
 		}
+		// constructors proper are the package-level New*/new* functions; every other function or method that returns the
+		// type (With*, helpers a constructor is split into) is only followed when a constructor calls it
+		isCtor := fd.Recv == nil && (strings.HasPrefix(fd.Name.Name, "New") || strings.HasPrefix(fd.Name.Name, "new"))
 		info := pk.TypesInfo
 		fn, _ := info.Defs[fd.Name].(*types.Func)
 		if fn == nil {
@@ -436,8 +439,10 @@ func scanCtorSib(c *core.Ctx) []ob {
 					}
 				}
 			case *ast.CallExpr:
-				if g := calleeFunc(info, v); g != nil && strings.HasPrefix(g.Name(), "New") || g != nil && strings.HasPrefix(g.Name(), "new") {
-					ci.deleg = append(ci.deleg, funcOrigin(g))
+				if g := calleeFunc(info, v); g != nil {
+					if gs, ok := g.Type().(*types.Signature); ok && gs.Results().Len() > 0 && namedOf(gs.Results().At(0).Type()) == named {
+						ci.deleg = append(ci.deleg, funcOrigin(g))
+					}
 				}
 			}
 			return true
@@ -445,7 +450,9 @@ func scanCtorSib(c *core.Ctx) []ob {
 		if whole {
 			return
 		}
-		byType[named.Obj()] = append(byType[named.Obj()], ci)
+		if isCtor {
+			byType[named.Obj()] = append(byType[named.Obj()], ci)
+		}
 		ctorOf[fn] = ci
 	})
 	// fields read by exported methods
@@ -488,9 +495,13 @@ func scanCtorSib(c *core.Ctx) []ob {
 		if len(cis) < 2 {
 			continue
 		}
-		// delegation closure
+		// delegation closure (through helpers and With* methods that return the type as well)
+		var allOfType []*ctorInfo
+		for _, ci := range ctorOf {
+			allOfType = append(allOfType, ci)
+		}
 		for iter := 0; iter < 4; iter++ {
-			for _, ci := range cis {
+			for _, ci := range allOfType {
 				for _, g := range ci.deleg {
 					if d := ctorOf[g]; d != nil && d != ci {
 						for f := range d.fields {
